@@ -21,14 +21,16 @@ Record st := {
   inflight : option (nat * nat * bool);   (* an entry inside Replica: sequence, generation of the memdb it obtained, rows written? *)
   fresh : list nat;         (* entries that introduce a name of their own (new metric); the others use name 0 *)
   nmem : list nat;          (* names known to the running node (memory or disk) *)
-  ndisk : list nat          (* names in the flushed dictionaries *)
+  ndisk : list nat;         (* names in the flushed dictionaries *)
+  bad : list nat            (* log entries that cannot be decoded (they carry no rows) *)
 }.
 Definition init : st :=
   {| la := 0; gcd := 0; k := 0; c := 0; seq := 0; gen := 0; mem := []; pseq := 0; pdata := []; inflight := None;
-     fresh := []; nmem := []; ndisk := [] |}.
+     fresh := []; nmem := []; ndisk := []; bad := [] |}.
 
 Inductive ev :=
 | Append (own_name : bool)
+| AppendBad             (* an entry that the replicator cannot decompress *)
 | Replica               (* the whole of localReplicator.Replica as one step *)
 | R1 | R2 | R3          (* ... or its regions: validate + get memdb / write rows / commit sequence *)
 | FlushCommit           (* dataFamily.Flush: swap memdb, capture sequences, write table + sequence in one edit log *)
@@ -46,18 +48,25 @@ Definition ack_to (s : st) (v : nat) : nat := if (k s <=? v) && (v <=? c s) then
 Definition upd (s : st) (la' gcd' k' c' seq' gen' : nat) (mem' : list nat) (pseq' : nat) (pdata' : list nat)
   (inf : option (nat * nat * bool)) (fr nm nd : list nat) : st :=
   {| la := la'; gcd := gcd'; k := k'; c := c'; seq := seq'; gen := gen'; mem := mem'; pseq := pseq'; pdata := pdata';
-     inflight := inf; fresh := fr; nmem := nm; ndisk := nd |}.
+     inflight := inf; fresh := fr; nmem := nm; ndisk := nd; bad := bad s |}.
 
 Definition step (s : st) (e : ev) : st :=
   match e with
   | Append b => upd s (la s + 1) (gcd s) (k s) (c s) (seq s) (gen s) (mem s) (pseq s) (pdata s) (inflight s)
                     (if b then (la s + 1) :: fresh s else fresh s) (nmem s) (ndisk s)
+  | AppendBad =>
+    {| la := la s + 1; gcd := gcd s; k := k s; c := c s; seq := seq s; gen := gen s; mem := mem s; pseq := pseq s; pdata := pdata s;
+       inflight := inflight s; fresh := fresh s; nmem := nmem s; ndisk := ndisk s; bad := (la s + 1) :: bad s |}
   | Replica =>
     match inflight s with Some _ => s | None =>
     if c s <? la s then
       let n := c s + 1 in
       if seq s <? n
-      then upd s (la s) (gcd s) (k s) n n (gen s) (n :: mem s) (pseq s) (pdata s) None (fresh s) (add_name (name_of s n) (nmem s)) (ndisk s)
+      then
+        if memb n (bad s)
+        then (* IgnoreMessage: acknowledged only when it is the entry right after the acknowledged one; CommitSequence *)
+          upd s (la s) (gcd s) (if k s + 1 =? n then n else k s) n n (gen s) (mem s) (pseq s) (pdata s) None (fresh s) (nmem s) (ndisk s)
+        else upd s (la s) (gcd s) (k s) n n (gen s) (n :: mem s) (pseq s) (pdata s) None (fresh s) (add_name (name_of s n) (nmem s)) (ndisk s)
       else upd s (la s) (gcd s) (k s) n (seq s) (gen s) (mem s) (pseq s) (pdata s) None (fresh s) (nmem s) (ndisk s)
     else s end
   | R1 =>
